@@ -4,6 +4,7 @@ set -e
 cd "$(dirname "$0")"
 export GOFLAGS=-mod=mod GOPROXY=off GOSUMDB=off GOTOOLCHAIN=local
 mkdir -p .build evidence replays
+(cd tools/go2lean && GOFLAGS= go build -o ../../.build/go2lean . && cd ../.. && .build/go2lean /repo tools/go2lean/targets.json lean) || echo "setup: go2lean failed"
 (cd lean && lake build 2>&1 | tail -3)
 cp /repo/go.sum harness/go.sum 2>/dev/null || true
 for d in harness/cmd/*/; do
